@@ -51,6 +51,7 @@ FIELDS["CFConfigMoves"] = {"self.q_vertex": ("self_q_vertex", "key"), "self.v_ti
 SRC_CLASS = {"CFConfigMoves": "CFConfig"}          # a group that is translated from the source of another class (kept in a file of its own)
 CROSS = {"self_degrees": "self_divisor_degrees", "self_graph_graph": "self_divisor_graph_graph"}      # fields of self.divisor as seen from a CFConfig
 COPY_OK = False     # CFConfig.copy() has the expected one-line body (set in main)
+LAP_ROWS_DEFAULT = None     # True when every row _construct_matrix creates is a defaultdict(int) in the current source (None: not seen yet)
 ENUMS = {}     # "OrientationState.NAME" -> int, read from the source of the enum class
 TARGETS = [
     ("chipfiring/CFDivisor.py", "CFDivisor", "is_effective"), ("chipfiring/CFDivisor.py", "CFDivisor", "get_degree"),
@@ -68,7 +69,7 @@ TARGETS = [
     ("chipfiring/CFOrientation.py", "CFOrientation", "get_orientation"), ("chipfiring/CFOrientation.py", "CFOrientation", "is_source"), ("chipfiring/CFOrientation.py", "CFOrientation", "is_sink"),
     ("chipfiring/CFOrientation.py", "CFOrientation", "divisor"), ("chipfiring/CFOrientation.py", "CFOrientation", "canonical_divisor"),
     ("chipfiring/CFDhar.py", "DharAlgorithm", "outdegree_S"),
-    ("chipfiring/CFLaplacian.py", "CFLaplacian", "_construct_matrix"), ("chipfiring/CFLaplacian.py", "CFLaplacian", "get_matrix_entry"),
+    ("chipfiring/CFLaplacian.py", "CFLaplacian", "_construct_matrix"), ("chipfiring/CFLaplacian.py", "CFLaplacian", "get_matrix_entry"), ("chipfiring/CFLaplacian.py", "CFLaplacian", "get_reduced_matrix"),
     ("chipfiring/CFConfig.py", "CFConfigMoves", "__init__"), ("chipfiring/CFConfig.py", "CFConfigMoves", "get_degree_at"), ("chipfiring/CFConfig.py", "CFConfigMoves", "is_non_negative"), ("chipfiring/CFConfig.py", "CFConfigMoves", "get_degree_sum"), ("chipfiring/CFConfig.py", "CFConfigMoves", "get_q_underlying_degree"),
     ("chipfiring/CFConfig.py", "CFConfigMoves", "_is_comparable_to"), ("chipfiring/CFConfig.py", "CFConfigMoves", "__eq__"), ("chipfiring/CFConfig.py", "CFConfigMoves", "__ge__"), ("chipfiring/CFConfig.py", "CFConfigMoves", "__le__"),
     ("chipfiring/CFConfig.py", "CFConfigMoves", "set_fire"), ("chipfiring/CFConfig.py", "CFConfigMoves", "lending_move"), ("chipfiring/CFConfig.py", "CFConfigMoves", "borrowing_move"),
@@ -351,11 +352,26 @@ class Fn:
             o = {ast.Lt: "(%s <? %s)", ast.LtE: "(%s <=? %s)", ast.Gt: "(%s >? %s)", ast.GtE: "(%s >=? %s)", ast.Eq: "(%s =? %s)", ast.NotEq: "(negb (%s =? %s))"}.get(type(op))
             if not o: bad(e, "comparison operator")
             return o % (a, b), "bool"
+        if isinstance(e, ast.Subscript) and LAP_ROWS_DEFAULT and self.cls == "CFLaplacian" and isinstance(e.value, ast.Subscript) and isinstance(e.value.value, ast.Name) \
+                and e.value.value.id in self.lap_aliases():
+            # a row of self.laplacian is a defaultdict(int) (seen in the CURRENT source of _construct_matrix): an absent entry reads as 0; the outer dictionary is plain (KeyError)
+            d, td = self.expr(e.value); k, tk = self.expr(e.slice)
+            if tk != "key" or td != "dictZ": bad(e, "subscript of a Laplacian row")
+            return "(d_get %s 0 %s)" % (k, d), "Z"
         if isinstance(e, ast.Subscript):
             d, td = self.expr(e.value); k, tk = self.expr(e.slice)
             if tk != "key" or td not in ("dictZ", "dictD"): bad(e, "subscript of %s by %s" % (td, tk))
             return self.lookup(d, k), ("Z" if td == "dictZ" else "dictZ")
         bad(e, ast.unparse(e)[:60])
+    def lap_aliases(self):
+        """local names bound exactly once, to self.laplacian"""
+        binds = {}
+        for n_ in ast.walk(self.node):
+            tg_ = n_.targets if isinstance(n_, ast.Assign) else ([n_.target] if isinstance(n_, (ast.AnnAssign, ast.AugAssign, ast.For)) else [])
+            for t_ in tg_:
+                for x_ in ast.walk(t_):
+                    if isinstance(x_, ast.Name): binds.setdefault(x_.id, []).append(ast.unparse(n_.value) if isinstance(n_, ast.Assign) and len(n_.targets) == 1 and isinstance(t_, ast.Name) else None)
+        return {x_ for x_, v_ in binds.items() if v_ == ["self.laplacian"]}
     def call_args(self, callee, e):
         exp_ = {x_ for v_ in callee.objargs.values() for x_, _ in v_}
         names = [p for p, _ in callee.params if p not in exp_] + list(callee.objargs); vals = {}
@@ -711,6 +727,8 @@ class Fn:
             # a fresh row; a defaultdict(int) row reads absent entries as 0, which is how every translated reader treats rows (d.get(k, 0))
             d = tg.value.id; kx, tk = self.expr(tg.slice)
             if tk != "key": bad(s)
+            if (self.cls, self.node.name) == ("CFLaplacian", "_construct_matrix"):
+                global LAP_ROWS_DEFAULT; LAP_ROWS_DEFAULT = LAP_ROWS_DEFAULT is not False and ast.unparse(value) == "defaultdict(int)"     # every row the constructor creates
             pre = self.pending; self.pending = []; body = K(); self.pending = pre
             return self.wrap("let %s := d_set %s [] %s in\n  %s" % (d, kx, d, body))
         if isinstance(tg.value, ast.Name) and self.env.get(tg.value.id) == "dictZ" and op is None:
